@@ -399,6 +399,7 @@ func (a *c18) r1() {
 type c18flag struct {
 	obj     types.Object
 	isField bool
+	atomic  bool // written through sync/atomic (no mutex needed, but then never plainly)
 	users   map[*types.Func]bool // field form: package functions that mention the field
 }
 
@@ -426,6 +427,45 @@ func (a *c18) findFlag() *c18flag {
 	}
 	if a.flag != nil {
 		return a.flag
+	}
+	// atomic form: worker code stores a non-zero constant into a variable or field through sync/atomic
+	{
+		var bodies []ast.Node
+		for _, l := range a.lits {
+			bodies = append(bodies, l.Body)
+		}
+		for _, fn := range a.funcs {
+			if a.worker[fn] {
+				bodies = append(bodies, c.P.Decl(fn).Body)
+			}
+		}
+		for _, b := range bodies {
+			ast.Inspect(b, func(n ast.Node) bool {
+				call, ok := n.(*ast.CallExpr)
+				if !ok || a.flag != nil {
+					return true
+				}
+				if o := a.atomicTarget(call, true); o != nil {
+					fl := &c18flag{obj: o, atomic: true, users: map[*types.Func]bool{}}
+					if v, ok := o.(*types.Var); ok && v.IsField() {
+						fl.isField = true
+					}
+					for _, fn := range a.funcs {
+						ast.Inspect(c.P.Decl(fn).Body, func(k ast.Node) bool {
+							if id, ok := k.(*ast.Ident); ok && a.info.Uses[id] == o {
+								fl.users[fn] = true
+							}
+							return true
+						})
+					}
+					a.flag = fl
+				}
+				return true
+			})
+		}
+		if a.flag != nil {
+			return a.flag
+		}
 	}
 	// field form: worker code calls a zero-argument method whose body stores true into a bool field
 	var bodies []ast.Node
@@ -543,7 +583,32 @@ func (a *c18) passFlag() {
 			pos = p
 		}
 	}
-	if flag.isField {
+	if flag.atomic {
+		// every access goes through sync/atomic: a plain read or write anywhere races with the workers
+		for _, fn := range a.funcs {
+			var atomicArgs []ast.Node
+			ast.Inspect(c.P.Decl(fn).Body, func(n ast.Node) bool {
+				if call, ok := n.(*ast.CallExpr); ok && a.atomicTarget(call, false) == flag.obj {
+					atomicArgs = append(atomicArgs, call)
+				}
+				return true
+			})
+			ast.Inspect(c.P.Decl(fn).Body, func(n ast.Node) bool {
+				id, ok := n.(*ast.Ident)
+				if !ok || a.info.Uses[id] != flag.obj || msg != "" {
+					return true
+				}
+				for _, ac := range atomicArgs {
+					if containsNode(ac, id) {
+						return true
+					}
+				}
+				msg = "the another-pass flag `" + flag.name() + "` is written through sync/atomic by the workers but accessed plainly here: the plain access races with them"
+				pos = id.Pos()
+				return true
+			})
+		}
+	} else if flag.isField {
 		var us []*types.Func
 		for f := range flag.users {
 			us = append(us, f)
@@ -607,6 +672,7 @@ func (a *c18) passFlag() {
 			check(r, s)
 		}
 	}
+	a.joinedUnlessErr(cl)
 	fl := &Flow[Facts]{C: cl, Info: a.info}
 	fl.Run(efd.Body, Facts{"joined": true})
 	switch {
@@ -1203,6 +1269,7 @@ func (a *c18) passBarrier() {
 		if !spawnedBefore {
 			init["joined"] = true
 		}
+		a.joinedUnlessErr(cl)
 		fl := &Flow[Facts]{C: cl, Info: a.info}
 		fl.Run(loop.Body, init)
 		switch {
@@ -1346,6 +1413,7 @@ func (a *c18) onePassPerCall(flag *c18flag, cons string) bool {
 			where = r.Pos()
 		}
 	}
+	a.joinedUnlessErr(cl)
 	fl := &Flow[Facts]{C: cl, Info: a.info}
 	fl.Run(efd.Body, Facts{"joined": true})
 	switch {
@@ -1419,4 +1487,38 @@ func (a *c18) isPerObject(f *types.Func) bool {
 		}
 	}
 	return false
+}
+
+// atomicTarget: the variable or field whose address a sync/atomic call is given (storing only:
+// Store*, Add*, Swap*, CompareAndSwap*, Or*, (*atomic.Bool).Store …), or nil.
+func (a *c18) atomicTarget(call *ast.CallExpr, storing bool) types.Object {
+	f := callee(a.info, call)
+	if f == nil || f.Pkg() == nil || f.Pkg().Path() != "sync/atomic" {
+		return nil
+	}
+	isStore := strings.HasPrefix(f.Name(), "Store") || strings.HasPrefix(f.Name(), "Add") || strings.HasPrefix(f.Name(), "Swap") || strings.HasPrefix(f.Name(), "CompareAndSwap") || strings.HasPrefix(f.Name(), "Or")
+	if storing && !isStore {
+		return nil
+	}
+	target := func(e ast.Expr) types.Object {
+		e = unparen(e)
+		if u, ok := e.(*ast.UnaryExpr); ok && u.Op == token.AND {
+			e = unparen(u.X)
+		}
+		if sel, ok := e.(*ast.SelectorExpr); ok {
+			return a.info.Uses[sel.Sel]
+		}
+		return objOf(a.info, e)
+	}
+	if f.Type().(*types.Signature).Recv() != nil {
+		// a method of atomic.Bool / atomic.Int32 …: the receiver is the flag
+		if sel, ok := unparen(call.Fun).(*ast.SelectorExpr); ok {
+			return target(sel.X)
+		}
+		return nil
+	}
+	if len(call.Args) == 0 {
+		return nil
+	}
+	return target(call.Args[0])
 }
